@@ -407,3 +407,20 @@ Proof.
     + right. rewrite <- Hf. exact E.
   - exists e. exact He.
 Qed.
+
+(* positions on the accepting side (C12): every item of an accepted input lies inside the file *)
+Lemma tiles_items_in_file : forall pos rest l, Tiles pos rest l ->
+  forall it, In it l -> pos <= i_off it /\ i_off it + i_len it <= pos + length rest.
+Proof.
+  intros pos rest l T. induction T as [pos|pos c r l Hws T IH|pos rest it l Hoff Hlen T IH]; intros x Hx.
+  - destruct Hx as [<-|[]]. cbn. lia.
+  - specialize (IH x Hx). cbn [length]. lia.
+  - destruct Hx as [<-|Hx]; [lia|]. specialize (IH x Hx). rewrite skipn_length in IH. lia.
+Qed.
+
+Theorem lex_item_positions_lemma : forall data items, lex data = LDone items ->
+  forall it, In it items -> i_off it + i_len it <= length (strip_bom data).
+Proof.
+  intros data items H it Hin. apply lex_tiles_lemma in H.
+  destruct (tiles_items_in_file _ _ _ H it Hin) as [_ Hle]. lia.
+Qed.
